@@ -707,6 +707,11 @@ def _worker(task):
         reqs = requests_for(refs, tags, wspec['cfg']['use_queue'])
         out['n_requests'] = len(reqs)
         chosen = reqs if reqs_idx is None else [reqs[i % len(reqs)] for i in reqs_idx]
+        if reqs_idx is not None and wspec['cfg']['use_queue'] and any(n.startswith('q/') for n in refs):
+            # q/* branches on the remote: always try to delete every existing destination branch (with and without
+            # a queue of its own) - the job checks q/* branches out before it tags the branch to delete
+            forced = [r for r in reqs if r['kind'] == 'delete_branch' and r.get('shape') == 'existing']
+            chosen = chosen + [r for r in forced if r not in chosen]
         snap = world.snapshot()
         first = True
         for req in chosen:
@@ -869,7 +874,8 @@ def run(ctx):
                 'of a middle one, feature branch tip, unknown sha, missing branch}, rebuild/delete/force-merge '
                 'queues, names outside the API grammar (model only); every request is run from the same snapshot '
                 'of the world; evaluation = one real job; non-trivial = distinct (layout, queues, job, shape, '
-                'branch_from, raise site) among jobs that end past the existence test' % (len(chosen), per_world))
+                'branch_from, raise site) among jobs that end past the existence test; in worlds with q/* branches '
+                'every existing destination branch is additionally deleted' % (len(chosen), per_world))
     grammar_probe(ctx)
     scens = corpus()
     ctx.count('corpus_scenarios', len(scens))
